@@ -2,6 +2,8 @@ package eng
 
 import (
 	"fmt"
+	"github.com/Oudwins/zog/zhttp"
+	"net/http"
 	"reflect"
 	"runtime"
 	"runtime/debug"
@@ -107,10 +109,12 @@ type execSpec struct {
 	opts     []z.ExecOption
 	rec      *Recorder
 	fmtTag   *string
+	factory  func() any // history steps only: a front-end request whose body cannot be decoded
 }
 
-func (g *Gen) execSpec() *execSpec {
-	n := g.Schema()
+func (g *Gen) execSpec() *execSpec { return g.execSpecFor(g.Schema()) }
+
+func (g *Gen) execSpecFor(n *Node) *execSpec {
 	e := &execSpec{node: n, validate: g.R.P(40), rec: &Recorder{CtxKeys: ctxProbe}}
 	e.schema = Build(e.rec, n, e.validate)
 	e.t = TypeOf(n)
@@ -146,7 +150,9 @@ func (e *execSpec) run() Observed { return e.runWith(e.rec) }
 func (e *execSpec) runWith(rec *Recorder) Observed {
 	dest := copyDest(e.t, e.dest0)
 	var data any
-	if !e.validate {
+	if e.factory != nil {
+		data = e.factory()
+	} else if !e.validate {
 		data = e.in.Go(nil)
 	}
 	return Exec(e.schema, e.validate, data, dest, rec, e.opts...)
@@ -172,6 +178,28 @@ func NewHistoryCase(g *Gen, id int) (*Case, []string, string) {
 	var hist []string
 	for i := 0; i < k; i++ {
 		h := g.execSpec()
+		if g.R.P(15) {
+			// the documented "top level optional struct": a pointer schema over a request
+			h = g.execSpecFor(&Node{Kind: KPtr, Elem: g.strct(2)})
+			h.validate = false
+			h.schema = Build(h.rec, h.node, false)
+			in := g.Input(h.node)
+			h.in = &in
+			h.dest0 = reflect.Zero(h.t)
+		}
+		if !h.validate && (h.node.Kind == KPtr || h.node.Kind == KStruct) && g.R.P(45) {
+			// an earlier request whose body could not be decoded (zhttp / zjson error paths)
+			body := Pick(g.R, []string{`{"a":`, `null`, ``, `[1]`, "a=%zz"})
+			ct := "application/json"
+			if body == "a=%zz" {
+				ct = "application/x-www-form-urlencoded"
+			}
+			h.factory = func() any {
+				r, _ := http.NewRequest("POST", "http://example.com/p", strings.NewReader(body))
+				r.Header.Set("Content-Type", ct)
+				return zhttp.Request(r)
+			}
+		}
 		o := h.run()
 		how := "kept"
 		switch g.R.Intn(6) {
